@@ -87,9 +87,16 @@ Qed.
 
 (* ---------- insert_element ---------- *)
 (* general form: the element is created and inserted; the push is left to the caller's lemma *)
-Lemma wp_insert_element s0 s (do_push : bool) ns name attrs dup (Q : handle -> st -> Prop) :
+(* [created_inserted s1 h name attrs]: the newest events are the insertion of h, preceded (possibly after a form
+   association) by its creation with the given name and attributes *)
+Definition created_inserted (s1 : st) (h : handle) (name : qualname) (attrs : list dattr) : Prop :=
+  exists ins mid tm ip dup older,
+    out s1 = EvOp ins :: mid ++ EvOp (OpCreateElement h name attrs tm ip dup) :: older /\ inserts ins (inl h).
+
+Lemma wp_insert_element_gen s0 s (do_push : bool) ns name attrs dup (Q : handle -> st -> Prop) :
   keeps s0 s -> late s ->
   (forall h s1, keeps s0 s1 -> same_lists s s1 -> known s1 h -> ename_of s1 h = (ns, name) ->
+       created_inserted s1 h (qn_elem ns name) attrs ->
        Q h (if do_push then set_open_elems (vpush (open_elems s1) h) s1 else s1)) ->
   wp (insert_element do_push ns name attrs dup) Q s.
 Proof.
@@ -107,26 +114,29 @@ Proof.
   assert (En : ename_of s2 h = (ns, name)) by apply new_elem_name.
   assert (Ok2 : ip_ok s2 true ip) by (apply (ip_ok_stable s1 s2); [exact I1 | exact S12 | reflexivity | exact Ok1]).
   (* from here on relative to s2 *)
-  assert (X : forall s3, keeps s2 s3 -> same_lists s2 s3 ->
+  assert (O2 : exists tm ip0, out s2 = EvOp (OpCreateElement h (qn_elem ns name) attrs tm ip0 dup) :: out s1) by (eexists; eexists; reflexivity).
+  assert (X : forall s3, keeps s2 s3 -> same_lists s2 s3 -> (exists mid, out s3 = mid ++ out s2) ->
           wp (insert_at ip (inl h) ;; (if do_push then push h else ret tt) ;; ret h) Q s3).
-  { intros s3 K3 SL3. rewrite wp_bind. pose proof K3 as [I3 S3].
+  { intros s3 K3 SL3 [mid O3]. rewrite wp_bind. pose proof K3 as [I3 S3].
     eapply (wp_insert_at s2 s3 true); [exact K3 | apply (ip_ok_stable s2 s3); [exact I2 | exact S3 | exact (proj1 SL3) | exact Ok2]
                                        | apply known_child_ok; [exact I3 | eapply stable_known; eassumption] |].
-    intros s4 K4 SL4.
+    intros s4 K4 SL4 (ins & O4 & Ins4).
+    assert (CI : created_inserted s4 h (qn_elem ns name) attrs).
+    { destruct O2 as (tm & ip0 & O2). exists ins, mid, tm, ip0, dup, (out s1). rewrite O4, O3, O2. split; [reflexivity | exact Ins4]. }
     assert (SL : same_lists s s4) by (eapply same_lists_trans; [exact SL2 | eapply same_lists_trans; eassumption]).
     assert (K04 : keeps s0 s4) by (eapply keeps_trans; eassumption).
     assert (Kn4 : known s4 h) by (destruct K4 as [_ S4]; eapply stable_known; eassumption).
     assert (En4 : ename_of s4 h = (ns, name)) by (destruct K4 as [_ S4]; rewrite (stable_ename _ _ _ S4 Kn); exact En).
-    specialize (H h s4 K04 SL Kn4 En4).
+    specialize (H h s4 K04 SL Kn4 En4 CI).
     destruct do_push.
     - rewrite wp_bind. unfold push. rewrite wp_modify, wp_ret. exact H.
     - rewrite wp_bind, wp_ret, wp_ret. exact H. }
   rewrite wp_bind.
   destruct (form_elem s1) as [f|] eqn:Ef.
-  2:{ rewrite andb_false_r. cbn [andb]. rewrite wp_ret. apply X; [apply keeps_refl; exact I2 | apply same_lists_refl]. }
+  2:{ rewrite andb_false_r. cbn [andb]. rewrite wp_ret. apply X; [apply keeps_refl; exact I2 | apply same_lists_refl | exists []; reflexivity]. }
   match goal with |- wp (if ?c then _ else _) _ _ => destruct c eqn:Cnd end.
   - rewrite wp_bind. apply wp_probe. rewrite wp_bind, wp_unwrap. exists f. split; [reflexivity|].
-    rewrite wp_emit. apply X; [| split; reflexivity].
+    rewrite wp_emit. apply X; [| split; reflexivity | eexists [_; _]; reflexivity].
     apply andb_true_iff in Cnd. destruct Cnd as [Cnd _]. apply andb_true_iff in Cnd. destruct Cnd as [Cnd NoT].
     apply andb_true_iff in Cnd. destruct Cnd as [Assoc _]. apply negb_true_iff in NoT.
     (* the insertion point holds elements: no template is open *)
@@ -148,8 +158,16 @@ Proof.
     rewrite (known_v_elem _ _ N1). cbn [andb in_set form_name_l existsb].
     replace (ename_eqb (ns_html, nm "form") (ns_html, nm "form")) with true by reflexivity. cbn [orb andb].
     destruct node2 as [x|]; [exact (known_v_elem _ _ N2) | reflexivity].
-  - rewrite wp_ret. apply X; [apply keeps_refl; exact I2 | apply same_lists_refl].
+  - rewrite wp_ret. apply X; [apply keeps_refl; exact I2 | apply same_lists_refl | exists []; reflexivity].
 Qed.
+
+Lemma wp_insert_element s0 s (do_push : bool) ns name attrs dup (Q : handle -> st -> Prop) :
+  keeps s0 s -> late s ->
+  (forall h s1, keeps s0 s1 -> same_lists s s1 -> known s1 h -> ename_of s1 h = (ns, name) ->
+       Q h (if do_push then set_open_elems (vpush (open_elems s1) h) s1 else s1)) ->
+  wp (insert_element do_push ns name attrs dup) Q s.
+Proof. intros K L H. apply (wp_insert_element_gen s0 s); [exact K | exact L |]. intros h s1 K1 SL Kn En _. apply H; assumption. Qed.
+
 
 Lemma keeps_push s0 s h :
   keeps s0 s -> late s -> known s h ->
@@ -802,15 +820,16 @@ From HV Require Base.Utf8 Meta.MetaModel Meta.MetaSpec Meta.MetaProofs.
 
 Definition scalar_tag (t : tag) : Prop := Forall (fun a => Utf8.scalars (d_value a)) (tg_attrs t).
 
+(* the model's extraction is the WHATWG algorithm on the characters of the attribute value *)
 Lemma wp_extract_encoding s c (Q : option str -> st -> Prop) :
-  Utf8.scalars c -> (forall r, Q r s) -> wp (extract_encoding c) Q s.
+  Utf8.scalars c -> Q (MetaSpec.extract_spec c) s -> wp (extract_encoding c) Q s.
 Proof.
   intros Sc H. unfold extract_encoding.
   rewrite (MetaProofs.extract_impl_correct_match c Sc).
-  destruct (MetaSpec.extract_spec c) as [l|] eqn:E; [|rewrite wp_ret; apply H].
+  destruct (MetaSpec.extract_spec c) as [l|] eqn:E; [|rewrite wp_ret; exact H].
   assert (Sl : Utf8.scalars l).
   { unfold MetaSpec.extract_spec in E. eapply MetaProofs.extract_loop_P; [exact Sc | exact E]. }
-  rewrite (Utf8.decs_encs l Sl). rewrite wp_ret. apply H.
+  rewrite (Utf8.decs_encs l Sl). rewrite wp_ret. exact H.
 Qed.
 
 Lemma get_attribute_scalars t n v : scalar_tag t -> get_attribute t n = Some v -> Utf8.scalars v.
@@ -819,20 +838,45 @@ Proof.
   injection E as <-. apply find_some in Fa. destruct Fa as [Hin _]. rewrite Forall_forall in F. apply F. exact Hin.
 Qed.
 
+(* the label a meta-like start tag declares (WHATWG "a start tag whose tag name is meta", steps 1-2 without the
+   encoding lookup / confidence tests): the charset attribute's value; otherwise, with http-equiv ~ content-type
+   and a content attribute, the result of "extracting a character encoding from a meta element" *)
+Definition model_label (t : tag) : option str :=
+  match get_attribute t (nm "charset") with
+  | Some c => Some c
+  | None =>
+    if match get_attribute t (nm "http-equiv") with Some v => eq_ignore_ascii_case v (nm "content-type") | None => false end
+    then match get_attribute t (nm "content") with Some c => MetaSpec.extract_spec c | None => None end
+    else None
+  end.
+
+(* the result is the indicator exactly when there is a label, and then one probe (49 / 50) was logged *)
+Lemma wp_meta_like_result_out s0 s t (Q : presult -> st -> Prop) :
+  keeps s0 s -> scalar_tag t ->
+  (forall r s', keeps s0 s' ->
+     ((r = DoneAckSelfClosing /\ model_label t = None /\ out s' = out s) \/
+      (exists l k, r = PEncoding l /\ model_label t = Some l /\ (k = 49 \/ k = 50) /\ out s' = EvArm 30 k :: out s)) -> Q r s') ->
+  wp (meta_like_result t) Q s.
+Proof.
+  intros K Sc H. unfold meta_like_result, model_label in *.
+  destruct (get_attribute t (nm "charset")) as [cs|].
+  { rewrite wp_bind. apply wp_probe. rewrite wp_ret. apply H; [(apply keeps_set_out; [|reflexivity]); exact K | right].
+    exists cs, 49. split; [reflexivity | split; [reflexivity | split; [left; reflexivity | reflexivity]]]. }
+  destruct (match get_attribute t (nm "http-equiv") with Some v => _ | None => false end).
+  2:{ rewrite wp_ret. apply H; [exact K | left; repeat split]. }
+  destruct (get_attribute t (nm "content")) as [c|] eqn:Ec.
+  2:{ rewrite wp_ret. apply H; [exact K | left; repeat split]. }
+  rewrite wp_bind. apply wp_extract_encoding; [eapply get_attribute_scalars; eassumption|].
+  destruct (MetaSpec.extract_spec c) as [e|].
+  - rewrite wp_bind. apply wp_probe. rewrite wp_ret. apply H; [(apply keeps_set_out; [|reflexivity]); exact K | right].
+    exists e, 50. split; [reflexivity | split; [reflexivity | split; [right; reflexivity | reflexivity]]].
+  - rewrite wp_ret. apply H; [exact K | left; repeat split].
+Qed.
+
 Lemma wp_meta_like_result s0 s t (Q : presult -> st -> Prop) :
   keeps s0 s -> scalar_tag t ->
   (forall r s', keeps s0 s' -> (r = DoneAckSelfClosing \/ exists l, r = PEncoding l) -> Q r s') ->
   wp (meta_like_result t) Q s.
 Proof.
-  intros K Sc H. unfold meta_like_result.
-  destruct (get_attribute t (nm "charset")) as [cs|].
-  { rewrite wp_bind. apply wp_probe. rewrite wp_ret. apply H; [(apply keeps_set_out; [|reflexivity]); exact K | right; eauto]. }
-  destruct (match get_attribute t (nm "http-equiv") with Some v => _ | None => false end).
-  2:{ rewrite wp_ret. apply H; [exact K | left; reflexivity]. }
-  destruct (get_attribute t (nm "content")) as [c|] eqn:Ec.
-  2:{ rewrite wp_ret. apply H; [exact K | left; reflexivity]. }
-  rewrite wp_bind. apply wp_extract_encoding; [eapply get_attribute_scalars; eassumption|].
-  intros [e|].
-  - rewrite wp_bind. apply wp_probe. rewrite wp_ret. apply H; [(apply keeps_set_out; [|reflexivity]); exact K | right; eauto].
-  - rewrite wp_ret. apply H; [exact K | left; reflexivity].
+  intros K Sc H. apply (wp_meta_like_result_out s0 s t Q K Sc). intros r s' K' [(R & _)|(l & k & R & _)]; apply H; eauto.
 Qed.
